@@ -1209,6 +1209,22 @@ def make_machine(world_cls, checks, cfg_strategy, rule_weights=None):
                     items.append(op)
             self._do({"_": "txn", "si": d(st.integers(0, self.ns - 1)), "items": items, "raise_through": d(st.booleans())})
 
+        @precondition(lambda self: rw.get("cancel_batch", 0) > 0)
+        @rule(data=st.data())
+        def cancel_batch(self, data):
+            """directed (C18 / C12): two or three resting orders cancelled in ONE package; the market suspends inside
+            the cancel latency (some or all cancels then fail at execution), and re-opens"""
+            d = data.draw
+            si = d(st.integers(0, self.ns - 1))
+            n = d(st.integers(2, 3))
+            self._do({"_": "txn", "si": si, "items": [{"op": "cancel", "o": k, "pool": "exec", "red": None} for k in range(n)], "raise_through": False})
+            if d(st.integers(0, 3)):
+                self._do({"_": "suspend", "dt": 50, "bump": False})
+                self._do({"_": "book", "dt": 1000, "rc": []})
+                self._do({"_": "suspend", "dt": 1000, "bump": False})
+            else:
+                self._do({"_": "book", "dt": 1000, "rc": []})
+
         @precondition(lambda self: rw["bulk"] > 0)
         @rule(data=st.data())
         def bulk(self, data):
